@@ -74,15 +74,48 @@ def op_netlist(op):
         n = Netlist(op["text"] if "text" in op else op["doc"])
     except EXPECTED as e:
         return err(e)
-    mods = []
-    for m in n.modules:
-        mods.append({"name": m.name, "rects": [rect_obs(r) for r in m.rectangles],
-                     "center": None if m.center is None else [m.center.x, m.center.y],
-                     "area": m.area(), "hard": bool(m.is_hard), "fixed": bool(m.is_fixed),
-                     "terminal": bool(m.is_terminal), "stog": bool(m.has_stog) if m.num_rectangles > 0 else None})
-    edges = [[[b.name for b in e.modules], e.weight] for e in n.edges]
-    return {"modules": mods, "edges": edges, "rects": [rect_obs(r) for r in n.rectangles],
-            "wl": n.wire_length if all(m.center is not None for m in n.modules) else None}
+    def view():
+        mods = []
+        for m in n.modules:
+            mods.append({"name": m.name, "rects": [rect_obs(r) for r in m.rectangles],
+                         "center": None if m.center is None else [m.center.x, m.center.y],
+                         "area": m.area(), "hard": bool(m.is_hard), "fixed": bool(m.is_fixed),
+                         "terminal": bool(m.is_terminal), "stog": bool(m.has_stog) if m.num_rectangles > 0 else None})
+        edges = [[[b.name for b in e.modules], e.weight] for e in n.edges]
+        return {"modules": mods, "edges": edges, "rects": [rect_obs(r) for r in n.rectangles],
+                "wl": n.wire_length if all(m.center is not None for m in n.modules) else None}
+    out = view()
+    if op.get("mutate"):
+        # the operations that change the loaded design in place
+        steps = []
+        for st in op["mutate"]:
+            try:
+                if st == "squares":
+                    steps.append([m.name for m in n.create_squares()])
+                elif st == "stogs":
+                    n.create_stogs()
+                    steps.append(bool(n.all_soft_modules_have_stogs()))
+                elif st == "recenter":
+                    done = []
+                    for m in n.modules:
+                        if m.is_hard and not m.is_fixed and m.center is not None and m.num_rectangles > 0:
+                            m.recenter_rectangles()
+                            done.append(m.name)
+                    steps.append(done)
+                elif st == "fixall":
+                    for r in n.rectangles:
+                        r.fixed = True
+                    steps.append(len(n.rectangles))
+                else:
+                    raise ValueError(st)
+            except EXPECTED as e:
+                steps.append({"raised": "rejected"})
+        out["mutate"] = steps
+        try:
+            out["mutated"] = view()
+        except EXPECTED:
+            out["mutated"] = {"raised": "rejected"}
+    return out
 
 
 def op_die(op):
@@ -139,6 +172,46 @@ def op_alloc(op):
             out["steps"].append({"raised": "rejected"})
             break
         out["steps"].append(alloc_obs(a))
+    return out
+
+
+def op_allocflow(op):
+    """an allocation READ FROM YAML (text or tree: cells given as lists of numbers) taken through the operations that
+    change its rectangles in place or hand them on: initial_allocation with a netlist (cells covered by fixed modules
+    are tagged fixed), refine, griddify, uniform depth, write_yaml + read again"""
+    from frame.allocation.allocation import Allocation
+    from frame.netlist.netlist import Netlist
+    try:
+        a = Allocation(op["alloc"])
+        out = {"init": alloc_obs(a), "steps": []}
+    except EXPECTED:
+        return {"raised": "rejected"}
+    for o in op.get("steps", []):
+        try:
+            if o[0] == "mbr":
+                out["steps"].append(bool(a.must_be_refined(o[1])))
+            elif o[0] == "refine":
+                a = a.refine(o[1], o[2])
+                out["steps"].append(alloc_obs(a))
+            elif o[0] == "uniform":
+                a = a.uniform_refinement_depth()
+                out["steps"].append(alloc_obs(a))
+            elif o[0] == "griddify":
+                a = a.griddify()
+                out["steps"].append(alloc_obs(a))
+            elif o[0] == "reread":
+                a = Allocation(a.write_yaml())
+                out["steps"].append(alloc_obs(a))
+            elif o[0] == "initial":
+                a2 = a.initial_allocation(Netlist(op["netlist"]), bool(o[1]))
+                out["steps"].append({"initial": alloc_obs(a2), "receiver": alloc_obs(a)})
+                if o[2]:
+                    a = a2
+            else:
+                raise ValueError(o[0])
+        except EXPECTED:
+            out["steps"].append({"raised": "rejected"})
+            break
     return out
 
 
@@ -305,6 +378,11 @@ def op_sat(op):
                 norm = {"t": [[q.lhs.t[v].L.v, bool(q.lhs.t[v].L.s), int(q.lhs.t[v].c)] for v in q.lhs.t],
                         "rhs": int(q.rhs), "op": q.op}
                 sm.pseudoboolencoding(q, p["decomp"])
+            elif k == "api":
+                # the public methods of the manager that post nothing (prioritize, setflipped, isflipped, newaux,
+                # printclauses, tocnf, solve, value, evalexpr, newvar with another prefix): histories only
+                from harness.props.c07 import do_api
+                do_api(sm, p)
             status.append("A")
         except Exception as e:
             if type(e) is Exception and str(e) in ("Not implemented yet.", "k must be at least 3"):
@@ -331,10 +409,19 @@ def op_sat(op):
             "vtable": [cn(v) for v in sm.vtable[1:]], "status": status,
             "codified": [names.get(int(i), "?") for i in sm.codified]}
     res = None
+    users = sorted({p["v"] for p in op["posts"] if p["k"] == "newvar"})
+    # the manager's own rendering of its clauses (integers by order of registration: no diagram-store id in it)
+    try:
+        view["cnf"] = sm.tocnf()
+    except EXPECTED as e:
+        view["cnf"] = {"raised": type(e).__name__}
+    view["flipped"] = [bool(sm.isflipped(PRE + v)) for v in users]
     if op.get("solve"):
         res = bool(sm.solve())
         view["solve"] = res
-    users = sorted({p["v"] for p in op["posts"] if p["k"] == "newvar"})
+        # the model the manager exposes (the solver is deterministic: same clauses, same integers, same model)
+        view["values"] = [[sm.value(Literal(PRE + v)), sm.value(Literal(PRE + v, False))] for v in users]
+        view["evalsum"] = sm.evalexpr(build_expr([[v, i % 2 == 0, i + 1] for i, v in enumerate(users)], 3))
     if len(users) <= 10:
         # the meaning of the encoding for its user: the projection of the CNF on the registered variables
         view["ext"] = raw["ext"] = user_projection(sm, users)
@@ -442,7 +529,7 @@ def op_defaults(op):
     return {"steps": out}
 
 
-OPS = {"netlist": op_netlist, "die": op_die, "alloc": op_alloc, "stog": op_stog, "sat": op_sat, "satgrow": op_satgrow,
+OPS = {"netlist": op_netlist, "die": op_die, "alloc": op_alloc, "allocflow": op_allocflow, "stog": op_stog, "sat": op_sat, "satgrow": op_satgrow,
        "legal": op_legal, "strop": op_strop, "defaults": op_defaults}
 
 
